@@ -140,7 +140,7 @@ fn main() {
         use compx::*;
         let shm = shm::Shm::new(16, 1 << 16);
         for l in 1990..2060 {
-            let c = TableCase { keys: vec![2, 4, 5, 6], patterns: vec![0, 0, 2, 0], block_size: 1, variant: 0, big_values: false, sweep_len: Some(l), long_run: None };
+            let c = TableCase { keys: vec![2, 4, 5, 6], patterns: vec![0, 0, 2, 0], block_size: 1, variant: 0, big_values: false, sweep_len: Some(l), long_run: None, wide: None };
             let es = table_entries(&c);
             table_case(&c, &shm, true, 0);
             println!("L={} first val len {} violations so far {}", l, es[0].3.len(), shm.get(shm::C_VIOLATIONS));
